@@ -179,6 +179,8 @@ def check_primitives(ctx):
 
 
 def check(ctx):
+    from .common import override_audit
+    ctx.floor('R02.2', override_audit(ctx, 'R02.2', ('push::push_vm::stack::HasStack', 'push::push_vm::State')), 4, 'provided methods of HasStack / State (override audit)')
     F = ctx.F
     fx, leaves, problems = PL.analyse(ctx)
     real = [l for l in leaves if l.outcomes is not None]
